@@ -782,6 +782,25 @@ def check(run, project):
                                          "tpmstream.spec.commands.params_common", "tpmstream.spec.common.values",
                                          "tpmstream.spec.common.base_type", "tpmstream.spec.common.tpm_rc"),
                     what="an internal error instead of a documented outcome", dead_in=dead_in)
+    # X7: every member of every layout has a TYPE the decoder can walk (a layout class, a primitive, a list of those, None for
+    # an empty union member, Any for the table-selected areas): anything else - a method object left uncalled, a string -
+    # makes the decode of that layout end in TypeError / AttributeError, which is no documented outcome
+    from ..specmodel import ClassV as _CV, ListT as _LT, ANY as _ANY
+    L_ = lg.L
+    n_f = 0
+    for k_, c_ in sorted(L_.all.items()):
+        if not (isinstance(c_, _CV) and L_.is_dataclass(c_)):
+            continue
+        for fn_, ft_ in L_.fields(c_):
+            n_f += 1
+            t_ = ft_.elem if isinstance(ft_, _LT) else ft_
+            ok_ = t_ is None or t_ is _ANY or (isinstance(t_, _CV) and (L_.is_dataclass(t_) or L_.is_primitive(t_)))
+            if not ok_:
+                run.ob("X7", False, f"{k_}.{fn_} has a type the decoder can walk",
+                       f"the member `{fn_}` of {k_} is declared as {getattr(t_, 'name', t_)!s}, which is not a type of the layout: decoding a "
+                       f"{k_} ends in an internal error (TypeError from dataclasses.fields / AttributeError) instead of a documented outcome",
+                       module=c_.module, node=c_.ann_nodes.get(fn_, c_.node), func=k_, construct=f"{k_}.{fn_} type")
+    run.ob("X7", True, f"{n_f} members of the layout classes have walkable types")
     # X6 (= C19-L4): the exemption above rests on "a Response is only ever decoded with a member of TPM_CC (or None)": the one
     # caller in the package that supplies command codes in bulk, the type search of the command line, must iterate TPM_CC
     # itself - a code of another kind (a name string, a number outside the enumeration) reaches that handler and dies with
